@@ -12,9 +12,42 @@ import pandera as pa
 import pandera.polars as pap
 
 
+_MODELS = {}
+
+
+def _pd_model(checked=True):
+    key = ("pd", checked)
+    if key not in _MODELS:
+        if checked:
+            class DepthModelPd(pa.DataFrameModel):
+                a: int = pa.Field(ge=0)
+        else:
+            class DepthModelPd(pa.DataFrameModel):     # noqa: F811  dtype only: a value check on mistyped data would itself error
+                a: int
+        _MODELS[key] = DepthModelPd
+    return _MODELS[key]
+
+
+def _pl_model(checked=True):
+    key = ("pl", checked)
+    if key not in _MODELS:
+        if checked:
+            class DepthModelPl(pap.DataFrameModel):
+                a: int = pap.Field(ge=0)
+        else:
+            class DepthModelPl(pap.DataFrameModel):    # noqa: F811
+                a: int
+        _MODELS[key] = DepthModelPl
+    return _MODELS[key]
+
+
 def _pd_cases():
     C = pa.Column
     out = []
+    # DataFrameModel (validate is a classmethod; the compiled schema is cached on the class)
+    out.append(("dtype_mismatch", "schema", "model", lambda: _pd_model(False), lambda: pd.DataFrame({"a": ["x", "y"]})))
+    out.append(("column_check", "data", "model", _pd_model, lambda: pd.DataFrame({"a": [1, -2]})))
+    out.append(("conforming", "none", "model", _pd_model, lambda: pd.DataFrame({"a": [1, 2]})))
     # (name, level, kind, schema factory, data factory)
     out.append(("missing_required_column", "schema", "dfs",
                 lambda: pa.DataFrameSchema({"a": C(int), "b": C(int)}), lambda: pd.DataFrame({"a": [1, 2]})))
@@ -91,6 +124,9 @@ def _pl_cases():
                  lambda: C(pl.Int64, unique=True, name="a"), lambda: pl.DataFrame({"a": [1, 1]})))
     base.append(("conforming", "none", "dfs",
                  lambda: pap.DataFrameSchema({"a": C(pl.Int64, pa.Check.ge(0), unique=True)}, strict=True, ordered=True), lambda: pl.DataFrame({"a": [1, 2]})))
+    base.append(("dtype_mismatch", "schema", "model", lambda: _pl_model(False), lambda: pl.DataFrame({"a": ["x", "y"]})))
+    base.append(("column_check", "data", "model", _pl_model, lambda: pl.DataFrame({"a": [1, -2]})))
+    base.append(("conforming", "none", "model", _pl_model, lambda: pl.DataFrame({"a": [1, 2]})))
     out = []
     for (n, lv, k, s, d) in base:
         out.append(("polars", "pl.DataFrame", n, lv, k, s, d))
